@@ -244,9 +244,28 @@ def check_class(name, rng, seed, n_samples=None, stats=None):
         F[id(pf)] = float(fv)
         if stationary:
             pg = Point(is_leaf=False, decomposition_dict=dict())
+        elif rng.random() < 0.3:
+            # the SAME genuine (sub)gradient written as a combination of two leaf points (what a composite function's
+            # oracle or a user's add_point((x, g1 + g2, fx)) records): a class must treat it exactly like a leaf
+            # (seed C15-9: non-leaf gradients taken for null gradients)
+            pa, pb = Point(), Point()
+            gfull = np.asarray(gv, float)
+            part = np.array([rng.choice([-1.0, 0.0, 0.5, 2.0]) for _ in range(len(gfull))])
+            w = rng.choice([1.0, 2.0, -0.5])
+            P[id(pa)] = gfull - part
+            P[id(pb)] = part / w
+            pg = pa + w * pb
         else:
             pg = Point()
             P[id(pg)] = np.asarray(gv, float)
+        if rng.random() < 0.15:
+            # ... and the evaluation point written as a difference of two leaf points
+            qa, qb = Point(), Point()
+            shift = np.array([rng.choice([-1.0, 0.0, 1.0]) for _ in range(len(P[id(px)]))])
+            P[id(qa)] = P[id(px)] + shift
+            P[id(qb)] = shift
+            del P[id(px)]
+            px = qa - qb
         func.add_point((px, pg, pf))
 
     if name == "SmoothStronglyConvexQuadraticFunction":
